@@ -106,6 +106,12 @@ def threadsAdequate (t : Table) : Bool :=
     on both sides of an impl header is two independent lifetimes: the output would be bounded by nothing.) -/
 def convsAdequate (t : Table) : Bool := t.valueConvs.all ValueConv.tied
 
+/-- a hand-written `Send` (`Sync`) impl must require `P: Send` (`P: Sync`) of every type parameter `P` of which the type stores
+    a value (the allocator parameter `A` in particular: an owned `Bump<A>`, a `&mut Bump<A>`, …).  A sibling of `sigOK`
+    (checked by `C04.hand_impls_ok`); the calculus' thread rules only cover the handle types (`threadsAdequate`). -/
+def handImplsAdequate (t : Table) : Bool :=
+  t.handImpls.all fun i => i.stored.all fun p => i.bounds.contains (p, i.tr)
+
 def sigOK (t : Table) : Bool :=
   t.sigs.all sigAdequate &&
   t.scopeImpls.all implAdequate &&
